@@ -79,15 +79,22 @@ def applyEncs (g : SrvCfg) : Caps → List Nat → List Immediate → Caps × Li
     let (c', im) := applyEnc g c e
     applyEncs g c' es (acc ++ im)
 
+/-- `if (cl->preferredEncoding == -1)` after the loop: fall back to the encoding in use before this
+message (`lastPreferredEncoding`), or to Raw if there was none -/
+def fallbackPreferred (last : Option Nat) (c : Caps) : Caps :=
+  match c.preferred with
+  | some _ => c
+  | none => { c with preferred := some (last.getD rfbEncodingRaw) }
+
+/-- `if (cl->enableCursorPosUpdates && !cl->enableCursorShapeUpdates)`: position updates are switched
+off again for a client that did not ask for cursor shape updates -/
+def dropPosWithoutShape (c : Caps) : Caps :=
+  if c.cursorPos && !c.cursorShape then { c with cursorPos := false } else c
+
 /-- the whole SetEncodings case -/
 def setEncodings (g : SrvCfg) (c : Caps) (encs : List Nat) : Caps × List Immediate :=
-  let last := c.preferred
-  let (c1, im) := applyEncs g (resetCaps c) encs []
-  let c2 := match c1.preferred with
-    | some _ => c1
-    | none => { c1 with preferred := some (last.getD rfbEncodingRaw) }
-  let c3 := if c2.cursorPos && !c2.cursorShape then { c2 with cursorPos := false } else c2
-  (c3, im)
+  let r := applyEncs g (resetCaps c) encs []
+  (dropPosWithoutShape (fallbackPreferred c.preferred r.1), r.2)
 
 /-- everything the client has ever listed in a SetEncodings message -/
 abbrev History := List Nat
